@@ -23,7 +23,7 @@
 // Answer of a rank: the observations joined by ';' :
 //     S -> s0 | s1          B -> b  followed by  <q>:[(g,ra,l,a)...]|[(g,ra,l,a)...]  for every neighbour entry q
 //     in ascending rank order (send list | receive list; g global index, ra attribute on q, l/a local index and
-//     attribute of the own pair).
+//     attribute of the own pair; entries with the same global index are printed in ascending (ra,l,a) order).
 #include <config.h>
 
 #include <algorithm>
@@ -91,6 +91,18 @@ static std::vector<Tuple> joinDef(const Shadow& A, const Shadow& B, bool ign, bo
     }
   }
   return out;
+}
+// canonical print order: entries of the same global index (possible only with repeated globals) are printed sorted;
+// the order among them is not something the property speaks about
+static std::vector<Tuple> canon(std::vector<Tuple> v) {
+  size_t i = 0;
+  while (i < v.size()) {
+    size_t j = i;
+    while (j < v.size() && v[j].g == v[i].g) ++j;
+    std::sort(v.begin() + i, v.begin() + j);
+    i = j;
+  }
+  return v;
 }
 static bool sortedByGlobal(const std::vector<Tuple>& v) {
   for (size_t i = 1; i < v.size(); ++i) if (v[i - 1].g > v[i].g) return false;
@@ -257,7 +269,7 @@ static Result exec(const std::string& line) {
       for (auto it = ri.begin(); it != ri.end(); ++it) {
         auto s = listOf(*it->second.first), r = listOf(*it->second.second);
         got[it->first] = std::make_pair(s, r);
-        o += (firstN ? "" : " ") + std::to_string(it->first) + ":" + show(s) + "|" + show(r);
+        o += (firstN ? "" : " ") + std::to_string(it->first) + ":" + show(canon(s)) + "|" + show(canon(r));
         firstN = false;
         nEntries += (long)(s.size() + r.size());
       }
